@@ -498,7 +498,9 @@ var linModel = porcupine.Model{
 
 func genLinOp(t *rapid.T) model.Op {
 	ids := []string{"f", "m", "s", "s2"}
-	switch rapid.SampledFrom([]int{0, 0, 1, 1, 1, 2, 3, 4, 5, 6, 7}).Draw(t, "k") {
+	switch rapid.SampledFrom([]int{0, 0, 1, 1, 1, 2, 3, 4, 5, 6, 7, 8}).Draw(t, "k") {
+	case 8:
+		return model.Op{K: "reopen"}
 	case 0:
 		return model.Op{K: "regnode", N: rapid.SampledFrom(ids).Draw(t, "n"), Pol: rapid.SampledFrom([]int{0, 0, 1, 2, 3}).Draw(t, "pol"), Shape: rapid.SampledFrom([]int{0, 3}).Draw(t, "shape")}
 	case 1:
@@ -555,6 +557,9 @@ func applyLin(b *eventlogger.Broker, w *nodes.World, op model.Op) linOut {
 			ids[i] = "overwritten-by-the-caller"
 		}
 		return linOut{ok: ok}
+	case "reopen":
+		_ = b.Reopen(ctx)
+		return linOut{}
 	case "rmpipe":
 		_ = b.RemovePipeline(eventlogger.EventType(op.ET), eventlogger.PipelineID(op.P))
 		return linOut{}
